@@ -1257,6 +1257,13 @@ func c10SameElementsInOrder(tm *Termer, v ssa.Value, what string, depth int) boo
 					empty = true
 				}
 			}
+			// xs[:0:0] - length and capacity zero, so append has to allocate (the body of slices.Clone, which the
+			// normaliser writes out in place)
+			if hi, isK := a.High.(*ssa.Const); isK && hi.Value != nil && hi.Int64() == 0 {
+				if mx, isM := a.Max.(*ssa.Const); isM && mx.Value != nil && mx.Int64() == 0 {
+					empty = true
+				}
+			}
 		}
 		return empty && c10SameElementsInOrder(tm, call.Call.Args[1], what, depth+1)
 	}
